@@ -151,6 +151,7 @@ type Call struct {
 	Count   int
 	Version string
 	fsApply func() result
+	fsTorn  func(*Tape) result
 	sortKey string
 	wake    chan result
 }
@@ -180,7 +181,7 @@ func (c *Call) target() target {
 
 func (c *Call) bucketName() string {
 	if c.Disk != nil {
-		return c.Disk.Name
+		return c.Disk.Label
 	}
 	return c.Bucket.Name
 }
